@@ -95,12 +95,29 @@ def extract_enum_decompose(v):
     return None
 
 
+def extract_enum_pseudo_members(v):
+    """Does calling a Flag class with an unnamed value register a pseudo-member in the class-level value map that _decompose reads?
+    (Flag._create_pseudo_member_ -> cls._value2member_map_.setdefault(value, pseudo_member))"""
+    tree = parse(os.path.join(libdir(v), "enum.py"))
+    writes, reads = [], False
+    for fn in ast.walk(tree):
+        if isinstance(fn, ast.FunctionDef) and fn.name == "_create_pseudo_member_":
+            for n in ast.walk(fn):
+                if isinstance(n, ast.Call) and isinstance(n.func, ast.Attribute) and n.func.attr == "setdefault" \
+                        and isinstance(n.func.value, ast.Attribute) and n.func.value.attr == "_value2member_map_":
+                    writes.append(fn.lineno)
+        if isinstance(fn, ast.FunctionDef) and fn.name == "_decompose":
+            reads = any(isinstance(n, ast.Attribute) and n.attr == "_value2member_map_" for n in ast.walk(fn))
+    return {"call_registers_pseudo_member": bool(writes), "decompose_reads_value_map": reads}
+
+
 def build(v):
     d = {"version": v, "source_tree": TREES[v]}
     d.update(extract_opcode(v))
     d.update(extract_flags(v))
     d["jump_scale"] = extract_dis_scale(v)
     d["enum_decompose_returns"] = extract_enum_decompose(v)
+    d["enum_pseudo_members"] = extract_enum_pseudo_members(v)
     return d
 
 
